@@ -3,13 +3,14 @@
 # change (applied to a scratch copy of /repo/src selected with VERIF_REPO_SRC;
 # /repo itself is never modified).  Expect exit 1 for each.
 tier=${1:-quick}; shift
-ids="$@"; [ -z "$ids" ] && ids=$(ls /verif/seeded)
+here=$(cd "$(dirname "$0")/.." && pwd)
+ids="$@"; [ -z "$ids" ] && ids=$(ls $here/seeded)
 for id in $ids; do
   prop=${id%%-*}
   tmp=$(mktemp -d /tmp/verif-seeded.XXXXXX)
   cp -r /repo/src $tmp/src
-  if ! patch -s -p1 -d $tmp < /verif/seeded/$id/patch.diff; then echo "$id PATCH-FAILED"; rm -rf $tmp; continue; fi
-  out=$(cd /verif && VERIF_REPO_SRC=$tmp/src VERIF_DET_N=4 timeout 1800 /venv/bin/python -B check.py $prop --tier $tier 2>&1); code=$?
+  if ! patch -s -p1 -d $tmp < $here/seeded/$id/patch.diff; then echo "$id PATCH-FAILED"; rm -rf $tmp; continue; fi
+  out=$(cd $here && VERIF_REPO_SRC=$tmp/src VERIF_DET_N=4 timeout 1800 /venv/bin/python -B check.py $prop --tier $tier 2>&1); code=$?
   line=$(echo "$out" | grep -E "^violation:|HARNESS-ERROR" | head -1 | cut -c1-220)
   for rp in $(echo "$out" | grep "^VIOLATION" | sed 's/.*replay=//'); do rm -f $rp; done
   echo "$id exit=$code $line"
